@@ -104,6 +104,15 @@ def constraint(draw, sp, allow_roots=True):
         if n > 1 and draw(st.booleans()):
             c["lb"] = [E.C(lo), E.C(lo - 0.5)]
             c["ub"] = [E.C(lo + 1.0), E.C(lo + 0.25)]
+        if n > 1 and draw(st.integers(0, 2)) == 0:
+            # element-wise bounds with some entries infinite (one-sided elements inside a two-sided vector relation)
+            lb, ub = [], []
+            for i in range(n):
+                side = draw(st.sampled_from(["both", "both", "lower-open", "upper-open"])) if i else "both"
+                l_i = lo - 0.25 * i
+                lb.append(E.C(float("-inf") if side == "lower-open" else l_i))
+                ub.append(E.C(float("inf") if side == "upper-open" else l_i + 1.0))
+            c["lb"], c["ub"] = lb, ub
     else:
         def bound():
             b = E.C(draw(gen.small()))
@@ -200,10 +209,10 @@ def instance_slacks(c, envs_by_grid, tr, N, M):
             if c["rel"] == "box":
                 lb = evalf(c["lb"][i if len(c["lb"]) == n else 0])
                 ub = evalf(c["ub"][i if len(c["ub"]) == n else 0])
-                out.extend(ref.slacks("box", lhs, lb=lb, ub=ub))
+                out.extend(sl + (i,) for sl in ref.slacks("box", lhs, lb=lb, ub=ub) if np.isfinite(sl[1]))   # an infinite bound is no row
             else:
                 rhs = evalf(c["rhs"][i if len(c["rhs"]) == n else 0])
-                out.extend(ref.slacks(c["rel"], lhs, rhs=rhs))
+                out.extend(sl + (i,) for sl in ref.slacks(c["rel"], lhs, rhs=rhs))     # (kind, slack, element)
 
     if is_point:
         rel_slacks(lambda e: ref.ev_top(e, tr))
